@@ -29,7 +29,7 @@ rule Kitchen "unicode é漢 description" salience -7 {
     ((F.I * 2 / 4 % 3 + 1 - 2 & 7 | 1) >= 0 && F.I > -1 && F.I < 100 && F.I <= 99 && F.I == F.I && F.I != 77 || !(F.B) || !F.B)
     && F.S.ToUpper().Len() >= 0 && F.Arr[F.K] >= 0 && F.M["a"] >= 0 && F.Add(1, F.I) > 0 && F.F > 0.0000001 && F.F < 1.5e3
     && F.S != "q\"uo" && F.S != 'si"ngle' && IsNil(F.PI) == false && !IsNil(nil) == false && F.P.Q.V == 11 && F.GetSub().V == 10
-    && F.Pick(1, 4, 0x10, 017) == 16 && true && !false && F.I2 < 3
+    && F.Pick(1, 4, 0x10, 017) == 16 && true && !false && F.I2 < 3 && !(F.I > 50) && !F.IsPos(-1) && !(!(F.I2 < 3))
   then
     F.I2 = F.I2 + 1;
     F.I += 2;
